@@ -451,6 +451,9 @@ def _part2(ctx):
         S.stackx_tie(ctx, env, om, ctx.n(30, 800))
         S.freeze_tie(ctx, env, om, ctx.n(60, 1500))
         S.drep_tie(ctx, env, om, ctx.n(50, 1200))
+        # default precision (round 6): declared vs returned shapes / dtypes (all 32-bit) in a subprocess WITHOUT jax_enable_x64,
+        # Python-scalar operands weakly typed, dtype arguments omitted; same accept / reject and declaration as with x64
+        S.nox64_stream(ctx, env, T.pair_table(ctx.rng), ctx.n(120, 2000), ctx.n(20, 300))
     finally:
         om.close()
 
